@@ -9,6 +9,8 @@ Decided (structural) clauses, see DESIGN.md section 3 / C12:
  D5 shape of the batch result / length check of the single result
  D6 scalar and vectorised siblings depend on the same instance parameters, and compare the coordinates with a parameter on
     the same side of the boundary (a point exactly on the boundary is treated alike)
+ D8 the declared output length agrees with what eval returns: where eval returns a list / tuple / array literal of k entries on
+    some path and output_length() (resolved along the MRO) returns a constant, the constant is k
  D7 a single-point evaluation hands out a fresh array, never the cached object itself (no mutable reference into the cache)
 Not decided: numerical equality scalar vs vectorised, analytic vs numerical integral."""
 import ast
@@ -320,6 +322,9 @@ def run(prog, ctx):
                           % (bad[0] if bad else "?", se.get(bad[0]) if bad else "", sv.get(bad[0]) if bad else ""))
     ctx.floor("C12.D6", pairs, 8, "classes overriding both eval and eval_vectorized")
 
+    # ---------------------------------------------------------------- D8
+    check_output_length(prog, ctx, base)
+
     # ---------------------------------------------------------------- D7
     tm7 = Terms(call.node, max_depth=0)
     rets = [r for r in R.return_paths(call)[0]]
@@ -378,6 +383,44 @@ def _boundary_sides(fi):
         else:
             out[a] = side
     return out
+
+
+def check_output_length(prog, ctx, base):
+    n = 0
+    for ci in prog.all_subclasses(base, include_self=False):
+        ev = ci.methods.get("eval")
+        if ev is None:
+            continue
+        ol = prog.lookup_method(ci, "output_length")
+        if ol is None:
+            continue
+        consts = set()
+        allconst = True
+        for r in R.return_paths(ol)[0]:
+            v = r.ast.value
+            if isinstance(v, ast.Constant) and isinstance(v.value, int):
+                consts.add(v.value)
+            else:
+                allconst = False
+        if not allconst or len(consts) != 1:
+            continue            # computed output length (wrappers): not decidable here
+        declared = consts.pop()
+        lens = set()
+        for r in R.return_paths(ev)[0]:
+            v = r.ast.value
+            if isinstance(v, ast.Call) and isinstance(v.func, ast.Attribute) and v.func.attr in ("array", "asarray") and v.args:
+                v = v.args[0]
+            if isinstance(v, (ast.List, ast.Tuple)) and not any(isinstance(e, ast.Starred) for e in v.elts):
+                lens.add(len(v.elts))
+        if not lens:
+            continue
+        n += 1
+        ctx.touch(ev, ol)
+        ctx.check(lens == {declared}, "C12.D8", "%s::output-length" % ci.qual, ev.loc(),
+                  "eval returns %s entries, output_length() declares %d" % (sorted(lens), declared),
+                  "%s.eval returns %s values per point but output_length() (defined in %s) declares %d: every evaluation through "
+                  "__call__ fails its length assertion / the batch reshape" % (ci.qual, sorted(lens), ol.cls.qual, declared))
+    ctx.floor("C12.D8", n, 1, "function classes whose eval returns a literal sequence")
 
 
 IGNORED_ATTRS = {"check_vectorization", "debug", "log", "eval", "eval_vectorized", "output_length", "f_dict", "old_f_dict",
